@@ -42,9 +42,9 @@ CLAIMS = {
     "C06": ("scan contracts: xBestIndex (both layers) proposes only windows the scan implements and reports ORDER BY as consumed only for a single key term; xFilter positions the cursor on the first key of the window for every operator/direction/bound combination; "
             "xNext steps in key order, skips kv tombstones and deleted rows, stops exactly at the window's end; Column returns the stored value of the current row; five genuine scan defects found, replayed at SQL level and fixed",
             "mast cursor contract assumed (immutable snapshot, strictly increasing keys); key order treated as an opaque total preorder ordU consistent with Key.Order; SQLite re-checks constraints (Omit unset)", "DESIGN §6 C06"),
-    "C07": ("key order: typeIndex/orderType/order/Key.Order verified against SQLite's documented class order and numeric/text/blob comparison (total preorder, antisymmetric up to equal contents) for all key pairs; NewKey/Value round trip; "
-            "statements locate rows by that order",
-            "INTEGER vs REAL comparison uses an uninterpreted monotone int->float conversion: exactness beyond 2^53 and mast Layer congruence across classes are not decided (no bit-vector mode built)", "DESIGN §6 C07"),
+    "C07": ("key order: typeIndex/orderType/order/Key.Order verified against SQLite's documented class order and numeric/text/blob comparison for all key pairs; NewKey/Value round trip; Key.Layer verified against its spec; "
+            "two lemmas decide the cross-class clauses and both FAIL on the real code (known findings, replayed): the INTEGER/REAL comparison is not SQLite's exact one above 2^53 (not transitive), and keys that compare equal (INTEGER n, REAL n.0) get different mast layers (process panic on insert)",
+            "within one storage class the order is a total order; the int->float conversion inside the Go contracts is an uninterpreted monotone function, its exact semantics enters through the SMT-LIB lemma (bit-vectors + floating point); mast's own use of Order/Layer is assumed", "DESIGN §6 C07, §12"),
     "C11": ("a historic open of named versions is a function of exactly those versions: kv.Open issues no LIST, merges strictly (any unreadable named version is an error, never a skip) exactly the named list, and every named version ends up merged; "
             "mergeRoots loop invariant carries this for every order of the random shuffle; a genuine defect (Clone failure skipped in strict mode) found, replayed and fixed; commit publishes the version object only after a successful flush",
             "naming of versions by content hash and immutability of stored objects rest on the assumed mast/MakeRoot contract; s3db_version / Roots / OpenKV glue not under contract", "DESIGN §6 C11"),
